@@ -24,8 +24,14 @@ CHECKS = [
           "Per generated grammar the implementation's own item sets, edges and table cells are validated, and the interpreter model is "
           "run against Parser::lr on the same tables. Construction: mirrors of Itemset::close and Itemset::goto are PROVED to compute the "
           "LR(1) closure / goto for every grammar, key order and fuel bound (close_mirror_sound/complete/terminates/order_insensitive, "
-          "goto_mirror_spec) and are tied to the code on every state and edge; Pager's merging and propagation remain covered by the "
-          "per-grammar certificate, not by a proof.",
+          "goto_mirror_spec) and are tied to the code on every state and edge. END TO END: from_yacc_mirror = mirror of pager_stategraph+gc "
+          "(C02) ; StorageT assert ; mirror of StateTable::new (C03) is proved, for every grammar, hash-order oracle and bound, to return a "
+          "table that always passes validS/validE (C01_construction_sound: every accepted input has a valid derivation tree, also with "
+          "conflicts resolved by precedence/default; never_panics; rejects_nonsentences), that passes validC/single_candidate and accepts "
+          "every sentence when no conflict is reported and no cell was settled by precedence (C01_construction_complete; conflicts() = None "
+          "alone is refuted as a hypothesis by a %nonassoc witness), and that fails only by a StorageT check or AcceptReduceConflict "
+          "(C01_construction_total). Tie of the composition: the extracted pipeline replays the implementation's pager trace with the "
+          "implementation's precedences and must rebuild the identical StateTable (every cell, state count, conflict counts).",
   "design_ref": "DESIGN.md §5 C01, §5A",
   "note": _TB + "validators' inputs are dumps taken through public accessors; Earley/tree-validity oracles (Python) only search for failing inputs.",
   "technique": "Coq proof of a verified validator (LR soundness/completeness from per-grammar certificate) + interpreter/implementation differential"},
@@ -47,7 +53,9 @@ CHECKS = [
   "technique": "Coq proof (Pager's theorem and correctness of a mirror of pager_stategraph for all grammars; agreement of validated automata) + replay of the implementation's run by the extracted mirror + validated canonical LR(1) reference differential"},
  {"id": "C04",
   "text": "Coq theorems for any validated dump of a productive grammar and ALL inputs: a Reject at lexeme k implies the first k lexemes are "
-          "a prefix of a sentence (shifted_prefix_viable) and the first k+1 are not (first_error_not_viable). Tie as C01, plus error "
+          "a prefix of a sentence (shifted_prefix_viable) and the first k+1 are not (first_error_not_viable). For the mirrored construction "
+          "(C01's from_yacc_mirror) both hold for every grammar: C04_construction_shifted_prefix_viable always, "
+          "C04_construction_first_error_not_viable when no conflict is reported and none settled by precedence. Tie as C01, plus error "
           "count, absent value and first error under CPCT+ against an Earley viable-prefix oracle on every generated input.",
   "design_ref": "DESIGN.md §5 C04, §5A",
   "note": _TB + "Earley oracle (Python) used for the failing-input search and the with-recovery clause.",
@@ -166,7 +174,9 @@ CHECKS = [
   "text": "Coq theorems: coherent_b is sound for the seven clauses of the statement (actions/shifts lists, targets = graph edges, "
           "core_reduces per (rule,length), reduce-only flag, reachability, closed = LR(1) closure of core), views computed from final "
           "cells are coherent for ANY cells, the mirror's state_actions = non-error cells plus %nonassoc-erased ones (refutation of the "
-          "pinned code; repaired). Tie: coherent_b and an independent re-computation on every state/token/rule of every generated table.",
+          "pinned code; repaired). For the mirrored construction (C01's from_yacc_mirror) coherence holds for EVERY grammar: "
+          "C16_construction_coherent (all row clauses, every state reachable after gc: pager_mirror_all_reachable, every closed state the "
+          "LR(1) closure of its core). Tie: coherent_b and an independent re-computation on every state/token/rule of every generated table.",
   "design_ref": "DESIGN.md §5 C16",
   "note": _TB + "reachability and closure clauses of coherent_b are proved sound only; completeness is covered by the independent Python re-computation.",
   "technique": "Coq proof (verified coherence validator + mirror of the view computation) + exhaustive per-state differential"},
